@@ -403,7 +403,7 @@ func cmdCheck(args []string) int {
 	var unclaimedHit []*oblResult
 	for _, r := range failed {
 		if kf := isKnown(r.O.Name); kf != nil {
-			fmt.Printf("KNOWN-FINDING: property=%s %s\n", *prop, kf.text)
+			fmt.Printf("KNOWN-FINDING: %s\n", kf.text)
 			knownHit = append(knownHit, r)
 			continue
 		}
@@ -437,7 +437,7 @@ func cmdCheck(args []string) int {
 			continue
 		}
 		if kf := isKnown(r.O.Name); kf != nil {
-			fmt.Printf("KNOWN-FINDING: property=%s %s\n", *prop, kf.text)
+			fmt.Printf("KNOWN-FINDING: %s\n", kf.text)
 			knownHit = append(knownHit, r)
 			continue
 		}
